@@ -518,4 +518,72 @@ Proof.
   now apply players_spec.
 Qed.
 
+(** ** why the partial-pairing models need the tie-stability premise: a witness
+    (three single-player teams of equal skill, the first two tied ahead of the third;
+    swapping the two tied teams changes who is the neighbour of the third team) *)
+Lemma btp_tied_omega P (tA tB tC : team) :
+  let kA : key := (1, 0)%Z in let kB : key := (1, 0)%Z in let kC : key := (2, 0)%Z in
+  omega 1 BTP P [(kA, tA); (kB, tB); (kC, tC)] (0%nat, (kA, tA)) = bt_omega_term P (kA, tA) (kB, tB) + 0 /\
+  omega 1 BTP P [(kB, tB); (kA, tA); (kC, tC)] (1%nat, (kA, tA)) =
+    bt_omega_term P (kA, tA) (kB, tB) + (bt_omega_term P (kA, tA) (kC, tC) + 0).
+Proof. split; reflexivity. Qed.
+Lemma bt_tie_term P k (tA tB : team) : theta tA = theta tB -> bt_omega_term P (k, tA) (k, tB) = 0.
+Proof.
+  intros E. unfold bt_omega_term, score, bt_p, key_eqb. cbn [fst snd].
+  rewrite key_ltb_irrefl, key_leb_refl. cbn [andb]. rewrite E.
+  replace ((theta tB - theta tB) / c_pair P tA tB) with 0 by (unfold Rdiv; ring).
+  rewrite exp_0. lra.
+Qed.
+Lemma bt_win_term P (kA kC : key) (tA tC : team) : key_ltb kA kC = true -> theta tA = theta tC -> 0 < ssq tA -> 0 < p_beta P ->
+  0 <= ssq tC -> 0 < bt_omega_term P (kA, tA) (kC, tC).
+Proof.
+  intros Hk E HA Hb HC. unfold bt_omega_term, score, bt_p. cbn [fst snd].
+  rewrite Hk, E.
+  replace ((theta tC - theta tC) / c_pair P tA tC) with 0 by (unfold Rdiv; ring).
+  rewrite exp_0.
+  assert (Hc : 0 < c_pair P tA tC) by (unfold c_pair; apply sqrt_lt_R0; nra).
+  apply Rmult_lt_0_compat; [apply Rdiv_lt_0_compat; assumption | lra].
+Qed.
+
+Theorem partial_tied_refuted :
+  let P : params R := mkParams 1 (1 / 10000) (fun c _ _ ss _ _ => sqrt ss / c) in
+  let a := mkRating 25 1 1 NmNone in let b := mkRating 25 1 2 NmNone in let c := mkRating 25 1 3 NmNone in
+  let ks := [(1, 0); (1, 0); (2, 0)]%Z in
+  Permutation (combine ks [[a]; [b]; [c]]) (combine ks [[b]; [a]; [c]]) /\
+  exists ra ra',
+    nth_error (rate_core BTP P 0 false [[a]; [b]; [c]] (Some ks)) 0 = Some [ra] /\
+    nth_error (rate_core BTP P 0 false [[b]; [a]; [c]] (Some ks)) 1 = Some [ra'] /\
+    r_mu ra <> r_mu ra'.
+Proof.
+  intros P a b c ks. split; [apply perm_swap|].
+  assert (K : keys_ok 3 (Some ks)) by (split; [reflexivity | repeat constructor; unfold key_wf; cbn; lia]).
+  rewrite (C01L.C01_BTP_refines Phi Phiinv P 0 false [[a]; [b]; [c]] (Some ks) K).
+  rewrite (C01L.C01_BTP_refines Phi Phiinv P 0 false [[b]; [a]; [c]] (Some ks) K).
+  unfold Spec.wl_update, Spec.wl_update_f, game_of, keys_of, indexed, ks.
+  cbn [map combine length seq nth_error].
+  set (ia := inflate_sigma 0 a). set (ib := inflate_sigma 0 b). set (ic := inflate_sigma 0 c).
+  unfold Spec.team_update. cbn [fst snd map].
+  eexists. eexists. split; [reflexivity|]. split; [reflexivity|].
+  assert (Hs : r_sigma ia = 1).
+  { unfold ia, inflate_sigma, a. cbn [r_sigma set_sigma set_mu_sigma]. replace (1 * 1 + 0 * 0) with 1 by ring. apply sqrt_1. }
+  assert (Hsc : r_sigma ic = 1).
+  { unfold ic, inflate_sigma, c. cbn [r_sigma set_sigma set_mu_sigma]. replace (1 * 1 + 0 * 0) with 1 by ring. apply sqrt_1. }
+  assert (SA : ssq [ia] = 1) by (unfold ssq; cbn [map Rsum]; rewrite Hs; ring).
+  assert (SC : ssq [ic] = 1) by (unfold ssq; cbn [map Rsum]; rewrite Hsc; ring).
+  assert (TA : theta [ia] = 25) by (unfold theta; cbn; ring).
+  assert (TB : theta [ib] = 25) by (unfold theta; cbn; ring).
+  assert (TC : theta [ic] = 25) by (unfold theta; cbn; ring).
+  destruct (btp_tied_omega P [ia] [ib] [ic]) as [E1 E2]. cbv zeta in E1, E2.
+  rewrite (bt_tie_term P ((1, 0)%Z : key) [ia] [ib]) in E1, E2 by congruence.
+  assert (Hw : 0 < bt_omega_term P (((1, 0)%Z : key), [ia]) (((2, 0)%Z : key), [ic])).
+  { apply bt_win_term; [reflexivity | congruence | lra | cbn; lra | lra]. }
+  set (W := bt_omega_term P (((1, 0)%Z : key), [ia]) (((2, 0)%Z : key), [ic])) in *.
+  match goal with |- r_mu (player_update _ _ ?o1 _ _) <> r_mu (player_update _ _ ?o2 _ _) =>
+    assert (O1 : o1 = 0 + 0) by exact E1;
+    assert (O2 : o2 = 0 + (W + 0)) by exact E2;
+    rewrite O1, O2 end.
+  unfold player_update. cbn [r_mu set_mu_sigma]. rewrite SA, Hs.
+  replace (1 * 1 / 1) with 1 by field. lra.
+Qed.
+
 End C04.
